@@ -333,11 +333,15 @@ fn strategy() -> impl Strategy<Value = Case> {
 fn run(ctx: &Ctx) {
     ctx.set_shrink_budget(120);
     ctx.run_sub("programs", ctx.tier.pick(400, 8_000), strategy, check);
+    // documents large enough for several object streams (the writer starts a new one every 100 members);
+    // each evaluation costs seconds (10^6-entry xref stream), so minimisation gets a small budget
+    ctx.set_shrink_budget(25);
+    ctx.run_sub("many-objects", ctx.tier.pick(16, 300), || progdoc::prog_many().prop_map(|prog| Case { prog, objstm: true }), check);
 }
 
 fn replay(ctx: &Ctx, sub: &str, case: &Value) -> Result<Outcome, String> {
     match sub.trim_start_matches("replay:") {
-        "programs" => ctx.replay_case::<Case, _>(case, check),
+        "programs" | "many-objects" => ctx.replay_case::<Case, _>(case, check),
         s => Err(format!("unknown sub-check {s}")),
     }
 }
